@@ -101,7 +101,32 @@ func resolveLockRoles(c *Ctx) *lockRoles {
 		return ok && b.Kind() == types.String
 	})
 	r.tokenF = c.oneField("locker.token", r.locker, func(f *types.Var) bool { _, ok := f.Type().Underlying().(*types.Chan); return ok })
-	r.timerF = c.oneFieldDeep("locker.timer", r.locker, func(f *types.Var) bool { return ir.IsNamed(f.Type(), "sync/atomic", "Value") })
+	// the timer slot: the atomic.Value field a timeout.Call result is stored into (other atomic.Value fields may exist)
+	holdsTimer := map[*types.Var]bool{}
+	for _, fn := range c.P.FuncsOf("kvs/distlock") {
+		ir.Instrs(fn, func(in ssa.Instruction) {
+			call, ok := in.(*ssa.Call)
+			if !ok || len(call.Call.Args) != 2 {
+				return
+			}
+			name := ir.CalleeFullName(call)
+			if name != "(*sync/atomic.Value).Store" && name != "(*sync/atomic.Value).CompareAndSwap" && name != "(*sync/atomic.Value).Swap" {
+				return
+			}
+			fa, isFA := call.Call.Args[0].(*ssa.FieldAddr)
+			if !isFA {
+				return
+			}
+			for _, o := range ir.Origins(call.Call.Args[len(call.Call.Args)-1]) {
+				if tc, isTC := o.(*ssa.Call); isTC && strings.HasSuffix(ir.CalleeFullName(tc), "/timeout.Call") {
+					holdsTimer[ir.FieldOf(fa)] = true
+				}
+			}
+		})
+	}
+	r.timerF = c.oneFieldDeep("locker.timer", r.locker, func(f *types.Var) bool {
+		return ir.IsNamed(f.Type(), "sync/atomic", "Value") && (len(holdsTimer) == 0 || holdsTimer[f])
+	})
 	lm := func(name string) *ssa.Function { return c.RequireFn(c.P.MethodOf(r.locker, name), "locker."+name) }
 	r.tryLock, r.lock, r.lockCtx, r.unlock = lm("TryLock"), lm("Lock"), lm("LockWithCtx"), lm("Unlock")
 	// held flag: the int32 field passed to CompareAndSwapInt32(.,1,0) in Unlock
@@ -632,6 +657,7 @@ func runC01(c *Ctx) {
 
 	c.renewalOnlyCAS(r, "C01.R7")
 	c.noSuccessAfterGiveBack(r, "C01.R8")
+	c.renewalContext(r, "C01.L2")
 	// L1: a record written with a stale or missing lease lapses under its holder and a second caller acquires
 	c.leaseOnWrite(r, "C01.L1")
 	// S: the storage the lock races on is atomic per operation and decides Create on the absent edge (in-memory backend)
@@ -712,9 +738,7 @@ func runC04(c *Ctx) {
 	// R2 unlock releases
 	{
 		fn := r.unlock
-		isDel := func(x ssa.Instruction) bool { return r.storageCall(x, "Delete") != nil }
-		c.NoPath("C04.R2", "Unlock deletes the lock record", nil, ir.Query{Fn: fn, Block: isDel, Target: ir.IsExit},
-			"Unlock can return without deleting the lock record: other lockers wait for the lease to run out")
+		c.unlockDeletes(r, "C04.R2")
 		c.NoPath("C04.R2", "Unlock returns the token", nil, ir.Query{Fn: fn, Block: r.tokenSend, Target: ir.IsExit},
 			"Unlock can return without putting the local token back: goroutines sharing this Locker block forever")
 	}
@@ -843,6 +867,7 @@ func runC04(c *Ctx) {
 
 	c.renewalOnlyCAS(r, "C04.R6")
 	c.noSuccessAfterGiveBack(r, "C04.R7")
+	c.epilogueOrder(r, "C04.R9")
 
 	// R8 shutdown is re-checked after every storage wait: an attempt that was parked in WaitForVersionChange when
 	// Shutdown happened must not go back to Create - on every path from the return of the wait to the next Create the
@@ -1054,14 +1079,7 @@ func runC05(c *Ctx) {
 			}
 			c.Decide("C05.L5", fn, "renewal CAS carries the version it was armed with, on the Locker's key", cas, okVer && okKey, "the renewal does not compare-and-set the Locker's key with the version of its tenure: a stale timer could touch a newer record")
 			// L6 context
-			ctxOK := false
-			if call, isCall := ir.Resolve(cas.Call.Args[0]).(*ssa.Call); isCall {
-				switch ir.CalleeFullName(call) {
-				case "context.Background", "context.TODO":
-					ctxOK = true
-				}
-			}
-			c.Decide("C05.L6", fn, "renewal does not use the acquisition's context", cas, ctxOK, "the renewal CAS runs under a caller-supplied context: when the acquisition's context ends (it normally bounds only the acquisition) every renewal fails and the record expires under the holder")
+			c.renewalContext(r, "C05.L6")
 			// L3: success edge re-arms with the new version
 			var okBlk *ssa.BasicBlock
 			for _, b := range fn.Blocks {
@@ -1147,6 +1165,7 @@ func runC05(c *Ctx) {
 	}
 
 	c.renewalOnlyCAS(r, "C05.L8")
+	c.unlockDeletes(r, "C05.L10")
 
 	// L9: a renewal that is in flight while the holder unlocks arms nothing. Unlock can cancel only the timer it finds in
 	// the slot; a renewal whose timer has already fired arms its successor after that. The renewal therefore has to look
@@ -1526,6 +1545,84 @@ func (c *Ctx) leaseOnWrite(r *lockRoles, rule string) {
 	}
 	c.R.Floor(rule, 6)
 
+}
+
+// renewalContext: the renewal CAS does not run under the context of the acquisition call (C05.L6, C01.L2).
+func (c *Ctx) renewalContext(r *lockRoles, rule string) {
+	fn := r.renewal
+	n := 0
+	ir.Instrs(fn, func(in ssa.Instruction) {
+		cas := r.storageCall(in, "CasByVersion")
+		if cas == nil {
+			return
+		}
+		n++
+		ctxOK := false
+		if call, isCall := ir.Resolve(cas.Call.Args[0]).(*ssa.Call); isCall {
+			switch ir.CalleeFullName(call) {
+			case "context.Background", "context.TODO":
+				ctxOK = true
+			}
+		}
+		c.Decide(rule, fn, "renewal does not use the acquisition's context", cas, ctxOK, "the renewal CAS runs under a caller-supplied context: when the acquisition's context ends (it normally bounds only the acquisition) every renewal fails and the record expires under the holder")
+	})
+	if n == 0 {
+		c.Decide(rule, fn, "renewal does not use the acquisition's context", nil, false, "the renewal routine does not renew with CasByVersion")
+	}
+}
+
+// unlockDeletes: Unlock deletes the lock record on every path (C04.R2, C05.L10). A record that survives Unlock keeps
+// every other Locker waiting for the lease to run out - and, when a renewal of the finished tenure is still in flight
+// (see C05.L9), is renewed for ever: the Delete is what makes that renewal's compare-and-set fail.
+func (c *Ctx) unlockDeletes(r *lockRoles, rule string) {
+	fn := r.unlock
+	isDel := func(x ssa.Instruction) bool { return r.storageCall(x, "Delete") != nil }
+	c.NoPath(rule, "Unlock deletes the lock record", nil, ir.Query{Fn: fn, Block: isDel, Target: ir.IsExit},
+		"Unlock can return without deleting the lock record: other lockers wait for the lease to run out (and a renewal in flight keeps the ownerless record alive)")
+}
+
+// epilogueOrder: an attempt resets the held flag before it puts the local token back (C04.R9). In the other order a
+// goroutine sharing the Locker can take the token while the flag still says "held": its own 0 -> 1 transition fails
+// (panic / refusal) and the token it took is never returned.
+func (c *Ctx) epilogueOrder(r *lockRoles, rule string) {
+	n := 0
+	for _, fn := range r.lockerFns {
+		if fn.Parent() != nil {
+			continue
+		}
+		ir.Instrs(fn, func(in ssa.Instruction) {
+			if !r.tokenSend(in) {
+				return
+			}
+			n++
+			isReset := func(x ssa.Instruction) bool {
+				op, addr, args, ok := ir.AtomicCall(x)
+				if !ok {
+					return false
+				}
+				if _, isHeld := fieldAddrOf(addr, r.heldF); !isHeld {
+					return false
+				}
+				switch op {
+				case "Store", "Swap":
+					k, isC := ir.ConstInt(args[0])
+					return isC && k == 0
+				case "CompareAndSwap":
+					k, isC := ir.ConstInt(args[len(args)-1])
+					return isC && k == 0
+				}
+				return false
+			}
+			// a reset reached from the send without passing another token receive: the flag was still set when the token went back
+			c.NoPath(rule, "held flag reset before the token goes back", in, ir.Query{Fn: fn, From: in,
+				Block:  func(x ssa.Instruction) bool { return r.tokenRecv(x) },
+				Target: isReset},
+				"the local token is returned before the held flag is reset: a goroutine sharing the Locker can take the token while the flag still reads 'held', its own acquisition then fails on the flag (panic: invalid state) and the token is lost")
+		})
+	}
+	if n == 0 {
+		c.Decide(rule, r.tryLock, "held flag reset before the token goes back", nil, false, "no token send found in the Locker's functions")
+	}
 }
 
 // renewalOnlyCAS: the renewal routine (and what it calls inside the package) talks to the storage only through
